@@ -105,3 +105,49 @@ def exThroughout : Cfg := { members := [
     expect := some (exEventually, .bin .gt (.var exSig) (.lit (.num 100))), watches := [] }] }
 
 end Shk.Aud
+
+namespace Shk.Aud
+open Shk
+
+theorem round_opens (c : Cfg) (hnd : (c.members.map (·.name)).Nodup) (m : Member) (hm : m ∈ c.members)
+    (hu : Unconditional m) (ts : Rat) (xs : List Sample) (s : St)
+    (h : (round c false ts xs s).abort = none) : ((round c false ts xs s).aud m.name).auditing = true := by
+  rw [round_eq] at h ⊢
+  split at h
+  · next hs => rw [if_pos hs] at *; cases hsa : s.abort <;> simp_all
+  · next hs => rw [if_neg hs]; exact fold_opens c ts m hu c.members _ hnd hm h
+
+theorem stepEv_open (c : Cfg) (hnd : (c.members.map (·.name)).Nodup) (m : Member) (hm : m ∈ c.members)
+    (hu : Unconditional m) (s : St) (e : Ev)
+    (hs : s.abort = none → ((s.aud m.name).auditing = true))
+    (h : (stepEv c s e).abort = none) : ((stepEv c s e).aud m.name).auditing = true := by
+  cases e with
+  | sig ts xs => exact round_opens c hnd m hm hu ts xs s h
+  | mood ts md =>
+    simp only [stepEv] at h ⊢
+    split at h
+    · next he => rw [if_pos he]; exact hs h
+    · next he =>
+      rw [if_neg he]
+      split at h
+      · next ha => rw [if_pos ha]; rw [h] at ha; cases ha
+      · next ha => rw [if_neg ha]; exact round_opens c hnd m hm hu ts [] _ h
+
+/-- **the period of an `audits throughout` auditor stays open until the final round**: after the start round and
+after every event, as long as nothing aborted -/
+theorem preFinal_open (c : Cfg) (hnd : (c.members.map (·.name)).Nodup) (m : Member) (hm : m ∈ c.members)
+    (hu : Unconditional m) (evs : List Ev) (h : (preFinal c evs).abort = none) :
+    ((preFinal c evs).aud m.name).auditing = true := by
+  unfold preFinal at h ⊢
+  have key : ∀ (es : List Ev) (s : St), (s.abort = none → (s.aud m.name).auditing = true) →
+      (es.foldl (stepEv c) s).abort = none → ((es.foldl (stepEv c) s).aud m.name).auditing = true := by
+    intro es
+    induction es with
+    | nil => intro s hs h; exact hs h
+    | cons e es ih =>
+      intro s hs h
+      simp only [List.foldl_cons] at h ⊢
+      exact ih _ (fun h' => stepEv_open c hnd m hm hu s e hs h') h
+  exact key evs (start c) (fun h' => start_opens c hnd m hm hu h') h
+
+end Shk.Aud
